@@ -235,7 +235,8 @@ pub struct PairCase {
     pub cfg: CfgSpec,
 }
 
-pub fn check_pair(case: &PairCase, _st: &mut Stats) -> Result<(), String> {
+pub fn check_pair(case: &PairCase, st: &mut Stats) -> Result<(), String> {
+    st.nontrivial(case);
     let a = render(&case.cfg, case.original.as_bytes(), case.width);
     let b = render(&case.cfg, case.rewritten.as_bytes(), case.width);
     for r in [&a, &b] {
@@ -275,6 +276,32 @@ fn regression_pairs() -> Vec<PairCase> {
     ]
 }
 
+/// Enumerated: white space that follows (or precedes) a block-like element placed where the
+/// grammar does not put it (a list part outside its list, a block inside an inline wrapper),
+/// written as plain text / split off by a comment / wrapped in a span / replaced by another run.
+fn odd_place_pairs() -> Vec<PairCase> {
+    let parts: &[&str] = &["<dt>T</dt>", "<dd>T</dd>", "<p>T</p>", "<div>T</div>", "<h2>T</h2>", "<ul><li>T</li></ul>", "<blockquote>T</blockquote>", "<em>T</em>", "<sup>2</sup>"];
+    let outers: &[(&str, &str)] = &[("", ""), ("<div>", "</div>"), ("<blockquote>", "</blockquote>"), ("<span>", "</span>"), ("<ul><li>", "</li></ul>"), ("<u>", "</u>")];
+    let tails: &[&str] = &["text", "<span>text</span>", "<em>text</em>", "te<b>xt</b> more"];
+    // (original white space, rewritten white space) - the same collapsible run in another spelling
+    let ws: &[(&str, &str)] = &[(" ", " <!--c-->"), (" ", "<!--c--> "), (" ", "<span> </span>"), (" ", "\n\t "), ("\n", " <!--c--> ")];
+    let mut v = vec![];
+    for part in parts {
+        for (o, e) in outers {
+            for tail in tails {
+                for (w0, w1) in ws {
+                    for width in [3usize, 40] {
+                        // white space after the part, and before it
+                        v.push(PairCase { original: format!("{}{}{}{}{}", o, part, w0, tail, e), rewritten: format!("{}{}{}{}{}", o, part, w1, tail, e), width, cfg: CfgSpec::plain() });
+                        v.push(PairCase { original: format!("{}{}{}{}{}", o, tail, w0, part, e), rewritten: format!("{}{}{}{}{}", o, tail, w1, part, e), width, cfg: CfgSpec::rich() });
+                    }
+                }
+            }
+        }
+    }
+    v
+}
+
 pub fn rewrite_case(g: G) -> BoxedStrategy<RewriteCase> {
     let cfg = prop_oneof![
         3 => Just(CfgSpec::plain()),
@@ -311,6 +338,7 @@ pub fn property() -> Property {
         hang_is_violation: false,
         subs: vec![
             EnumSub::new("pairs", false, |_| regression_pairs(), check_pair).boxed(),
+            EnumSub::new("odd_places", true, |_| odd_place_pairs(), check_pair).boxed(),
             PropSub::new("rewrite", 48_000, 480_000, move || rewrite_case(g.clone()), check_rewrite).with_validity(|c| c.doc.valid() && gen::runs_visible(&c.doc.blocks)).boxed(),
         ],
     }
